@@ -50,6 +50,9 @@ pub struct SeamLog {
     pub total_seeks: u64,
     pub total_eofs: u64,
     pub false_eofs: u64,
+    /// a grow_to call for a buffer beyond this size counts as runaway growth (default 64 MiB;
+    /// raised for inputs of tens of MiB)
+    pub growth_limit: usize,
     /// a read filled the request completely and the last byte delivered was '\n' / '\r'
     pub full_nl: u64,
     pub full_cr: u64,
@@ -128,26 +131,40 @@ impl SimSource {
 
     fn fault_at(&self, call: usize) -> Option<(ErrorKind, io::Error)> {
         self.faults.iter().find(|f| f.call == call).map(|f| {
-            let kind = kind_from_name(&f.kind);
-            let err = if f.payload.is_empty() {
-                io::Error::from(kind)
-            } else if f.payload == "msg" {
-                io::Error::new(kind, "injected fault with a message")
-            } else if let Some(k2) = f.payload.strip_prefix("nested:") {
-                io::Error::new(kind, io::Error::from(kind_from_name(k2)))
-            } else if f.payload == "seqio" {
-                // an error value of seq_io itself as payload
-                if call % 2 == 0 {
-                    io::Error::new(kind, seq_io::fastq::Error::BufferLimit)
-                } else {
-                    io::Error::new(kind, seq_io::fasta::Error::InvalidStart { line: 1, found: b'x' })
-                }
-            } else {
-                io::Error::from(kind)
-            };
-            (kind, err)
+            let e = build_fault(f, call);
+            (e.kind(), e)
         })
     }
+}
+
+/// The io::Error a `Fault` stands for (the kind that must come back is always the outer one).
+pub fn build_fault(f: &Fault, call: usize) -> io::Error {
+    let kind = kind_from_name(&f.kind);
+    if f.payload.is_empty() {
+        io::Error::from(kind)
+    } else if f.payload == "msg" {
+        io::Error::new(kind, "injected fault with a message")
+    } else if let Some(k2) = f.payload.strip_prefix("nested:") {
+        io::Error::new(kind, io::Error::from(kind_from_name(k2)))
+    } else if let Some(code) = f.payload.strip_prefix("os:") {
+        // an error that comes from the operating system: it carries a raw code, its kind is
+        // whatever std maps the code to (the `kind` field of the fault is ignored)
+        io::Error::from_raw_os_error(code.parse().unwrap_or(5))
+    } else if f.payload == "seqio" {
+        // an error value of seq_io itself as payload
+        if call % 2 == 0 {
+            io::Error::new(kind, seq_io::fastq::Error::BufferLimit)
+        } else {
+            io::Error::new(kind, seq_io::fasta::Error::InvalidStart { line: 1, found: b'x' })
+        }
+    } else {
+        io::Error::from(kind)
+    }
+}
+
+/// what the reader has to hand back for this fault (see `scn::io_label`)
+pub fn fault_label(f: &Fault) -> String {
+    crate::scn::io_label(&build_fault(f, f.call))
 }
 
 impl Read for SimSource {
@@ -163,7 +180,7 @@ impl Read for SimSource {
         }
         log.op.last_req = Some(buf.len());
         if let Some((kind, err)) = self.fault_at(call) {
-            log.op.faults.push(format!("{:?}", kind));
+            log.op.faults.push(crate::scn::io_label(&err));
             log.total_faults += 1;
             log.ev(3, call as u64, kind as u64);
             return Err(err);
@@ -248,7 +265,7 @@ impl Seek for SimSource {
         log.op.seeks += 1;
         log.total_seeks += 1;
         if let Some((kind, err)) = self.fault_at(call) {
-            log.op.faults.push(format!("{:?}", kind));
+            log.op.faults.push(crate::scn::io_label(&err));
             log.total_faults += 1;
             log.ev(5, call as u64, kind as u64);
             return Err(err);
@@ -466,7 +483,7 @@ impl BufPolicy for SimPolicy {
     fn grow_to(&mut self, current_size: usize) -> Option<usize> {
         let mut log = self.seam.borrow_mut();
         log.step();
-        if current_size > (1 << 26) {
+        if current_size > log.growth_limit.max(1 << 26) {
             panic!("{}: runaway buffer growth (grow_to({}))", HANG_MARK, current_size);
         }
         let res = policy_eval(&self.spec, self.grants, current_size);
